@@ -122,5 +122,22 @@ pos("revert-F17-gobencode-uint32-wordcount","decimal_marsh.go","		n = int((uint6
 pos("revert-F18-setfloat64-prec-increment","decimal.go","		prec := z.prec\n		if z.prec < MaxPrec {\n			z.prec++\n		}\n		t := new(Decimal).SetPrec(uint(z.prec))\n		if exp2 < 0 {\n			z = z.Quo(z, t.pow2(uint64(-exp2)))\n		} else {\n			z = z.Mul(z, t.pow2(uint64(exp2)))\n		}\n		z.prec = prec","		z.prec++\n		t := new(Decimal).SetPrec(uint(z.prec))\n		if exp2 < 0 {\n			z = z.Quo(z, t.pow2(uint64(-exp2)))\n		} else {\n			z = z.Mul(z, t.pow2(uint64(exp2)))\n		}\n		z.prec--","PRECWRAP","SetFloat64",quick=True,note="F18")
 pos("tconv-setfloat64-no-guard-digit","decimal.go","		prec := z.prec\n		if z.prec < MaxPrec {\n			z.prec++\n		}\n		t := new(Decimal).SetPrec(uint(z.prec))\n		if exp2 < 0 {\n			z = z.Quo(z, t.pow2(uint64(-exp2)))","		prec := z.prec\n		t := new(Decimal).SetPrec(uint(z.prec))\n		if exp2 < 0 {\n			z = z.Quo(z, t.pow2(uint64(-exp2)))","T-CONV","SetFloat64(",note="the scaling loses its guard digit")
 pos("asm-defuse-index-not-initialised",S,"	MOVQ y+48(FP), CX	// c = y\n	MOVQ z+0(FP), R10\n\n	MOVQ $0, SI			// i = 0\n","	MOVQ y+48(FP), CX	// c = y\n	MOVQ z+0(FP), R10\n\n","ASM","defuse/·add10VW",quick=True)
+# revert of one instance of F20 (Append reading the exponent of a zero)
+pos("revert-F20-append-stale-exponent","decimal_toa.go","		exp := x.exp10() - 1\n","		exp := int(x.exp) - 1\n","STALE","(*Decimal).Append",quick=True,note="F20")
+pos("stale-toa-zero-through-finite-path","decimal_toa.go","	if x.form == finite {\n		m := x.mant\n","	if x.form != inf {\n		m := x.mant\n","STALE","(*Decimal).toa",note="a zero's leftover mantissa words are printed")
+C.append({"name":"stale-intmant-caller-unguarded","kind":"positive","edits":[
+ {"file":"decimal.go","old":"		z = new(big.Int)\n	}\n\n	switch x.form {\n	case finite:\n","new":"		z = new(big.Int)\n	}\n\n	switch x.form {\n	case finite, zero:\n"},
+ {"file":"decimal.go","old":"		return z, acc\n\n	case zero:\n		return z.SetInt64(0), Exact\n\n	case inf:\n		return nil, makeAcc(x.neg)","new":"		return z, acc\n\n	case inf:\n		return nil, makeAcc(x.neg)"}],
+ "expect":[{"rule":"STALE","construct":"(*Decimal).Int"}],"note":"Int treats a zero like a finite value: its leftover exponent and mantissa decide the result"})
+# rules added after the fourth round of seeded changes
+pos("fill-setnat-stops-when-source-exhausted","dec.go","	for i := 0; i < len(z); i++ {\n		z[i] = divWVW(b, 0, b, _DB)\n	}","	for i := 0; i < len(z); i++ {\n		if len(b) > 0 && b[len(b)-1] == 0 {\n			b = b[:len(b)-1]\n		}\n		if len(b) == 0 {\n			break\n		}\n		z[i] = divWVW(b, 0, b, _DB)\n	}","FILL","dec.setNat",quick=True,note="seed r4-C02A")
+neg("fill-setnat-index-renamed","dec.go","	for i := 0; i < len(z); i++ {\n		z[i] = divWVW(b, 0, b, _DB)\n	}","	for k := 0; k < len(z); k++ {\n		w := divWVW(b, 0, b, _DB)\n		z[k] = w\n	}",["FILL"])
+pos("gob-setbytes-range-over-words","dec.go","	for k := 0; i >= _S; k++ {\n		z[k] = bigEndianWord(buf[i-_S : i])","	for k := range z {\n		z[k] = bigEndianWord(buf[i-_S : i])","GOB","G6:offset-guard",quick=True,note="seed r4-C17B")
+neg("gob-setbytes-guard-rewritten","dec.go","	for k := 0; i >= _S; k++ {\n		z[k] = bigEndianWord(buf[i-_S : i])","	for k := 0; _S <= i; k++ {\n		z[k] = bigEndianWord(buf[i-_S : i])",["GOB"])
+pos("gob-bytes-stops-at-last-significant-byte","dec.go","		for j := 0; j < _S; j++ {\n			i--\n			buf[i] = byte(d)","		for j := 0; j < _S && d != 0; j++ {\n			i--\n			buf[i] = byte(d)","GOB","G7:positional",quick=True,note="seed r4-C17A")
+pos("scan-setstring-strconv-fast-path","decimal_conv.go","	if f, _, err := z.Parse(s, 0); err == nil {\n		return f, true\n	}\n	return nil, false","	if len(s) < 19 {\n		if u, err := strconv.ParseUint(s, 0, 64); err == nil {\n			return z.SetUint64(u), true\n		}\n	}\n	if f, _, err := z.Parse(s, 0); err == nil {\n		return f, true\n	}\n	return nil, false","SCANSHAPE","SetString/one-grammar",note="seed r4-C12B")
+C[-1]["edits"].append({"file":"decimal_conv.go","old":"	\"io\"\n	\"strings\"\n","new":"	\"io\"\n	\"strconv\"\n	\"strings\"\n"})
+pos("scan-readbyte-accepts-wide-runes","stdlib.go","	ch, size, err := r.ReadRune()\n	if size != 1 && err == nil {","	ch, size, err := r.ReadRune()\n	if size == 0 && err == nil {","SCANSHAPE","byte-reader",quick=True,note="seed r4-C12A")
+neg("scan-readbyte-range-test","stdlib.go","	ch, size, err := r.ReadRune()\n	if size != 1 && err == nil {","	ch, _, err := r.ReadRune()\n	if ch >= 0x80 && err == nil {",["SCANSHAPE"])
 json.dump(C,open("seedrules.json","w"),indent=1,ensure_ascii=False)
 print(len(C),"controls")
